@@ -12,6 +12,7 @@ package c10
 
 import (
 	"bytes"
+	"encoding/json"
 	"errors"
 	"fmt"
 	"io"
@@ -20,7 +21,6 @@ import (
 	"path/filepath"
 	"regexp"
 	"runtime"
-	"runtime/pprof"
 	"strconv"
 	"strings"
 	"sync"
@@ -87,6 +87,7 @@ type cfg struct {
 	Renew, DelayComp               time.Duration
 	PoolSize                       int
 	NodesFiles, HistFiles, CLFiles int
+	Small                          bool // few short keys in a big node: the root stays a single leaf
 }
 
 func requiredNodeSize(k, v int) int {
@@ -105,6 +106,15 @@ func genCfg(r *rand.Rand) cfg {
 	cf.MaxVal = pick(r, 1, 2, 4, 8, 16, 40)
 	cf.NodeSize = requiredNodeSize(cf.MaxKey, cf.MaxVal) + pick(r, 0, 0, 0, 1, 16, 64, 300)
 	cf.PoolSize = pick(r, 6, 24, 80, 200, 400)
+	if r.IntN(4) == 0 {
+		// small-tree profile: the whole tree is one leaf (or a root over two or three
+		// leaves), the copy-on-write of the root itself is what every operation exercises
+		cf.Small = true
+		cf.MaxKey = pick(r, 2, 3, 4)
+		cf.MaxVal = pick(r, 1, 4, 8)
+		cf.NodeSize = requiredNodeSize(cf.MaxKey, cf.MaxVal) + pick(r, 120, 400, 1000, 4000)
+		cf.PoolSize = pick(r, 3, 4, 6, 8)
+	}
 	cf.tune(r)
 	// history reads fetch 4 KiB at a time: files of ~100 bytes cost dozens of opens per read, so they are rare
 	cf.FileSize = pick(r, 2048, 4096, 4096, 8192, 8192, 1<<16, 1<<20, 1<<20)
@@ -193,6 +203,7 @@ type seq struct {
 	snapSeq   int
 	compactTs uint64 // timestamp reported by the last successful Compact since the tree was opened
 	valCtr    uint64
+	lastKeys  [][]byte // keys written by the latest insertion: always re-queried on every open snapshot
 	depth     int
 	maxDepth  int
 	conc      bool         // thorough tier: reader goroutines and background compaction
@@ -1281,8 +1292,32 @@ func (s *seq) afterMutation(what string) {
 			s.maxDepth = d
 		}
 	}
+	// the keys just written: the tree must show the new version, every open snapshot the old state
+	for i, k := range s.lastKeys {
+		if i == 4 {
+			break
+		}
+		if !s.checkQuery("tree", "", s.depth, s.t, s.m.Now(), query{kind: 0, key: k}) {
+			return
+		}
+	}
 	for _, ss := range s.snaps {
 		ss.stale = true
+		for i, k := range s.lastKeys {
+			if i == 4 {
+				break
+			}
+			q := query{kind: 0, key: k}
+			switch s.r.IntN(3) {
+			case 1:
+				q = query{kind: 2, key: k, desc: s.r.IntN(2) == 0, limit: 3}
+			case 2:
+				q = query{kind: 1, key: k, i: 0, f: ss.ts0 + 2}
+			}
+			if !s.checkQuery("snapshot", ss.phase(), ss.depth, ss.s, ss.frozen.Now(), q) {
+				return
+			}
+		}
 		if !s.probeSnapshot(s.r, ss, 2, true) {
 			return
 		}
@@ -1300,6 +1335,9 @@ func (s *seq) genBulk() (bulk []*tbtree.KVT, eff []kvmodel.KVT) {
 		n = 8 + s.r.IntN(40)
 	case 1, 2:
 		n = 1
+	}
+	if s.cf.Small && s.r.IntN(4) > 0 {
+		n = 1 + s.r.IntN(2)
 	}
 	cur := s.m.Ts()
 	mode := s.r.IntN(4) // 0 all zero, 1 one explicit ts, 2 rising, 3 mixed
@@ -1365,6 +1403,7 @@ func (s *seq) insert() {
 		}
 		s.m.Set(k, v, s.m.Ts()+1)
 		s.c.Distinct(fmt.Sprintf("d%d/tree.Insert/ok", s.depth))
+		s.lastKeys = [][]byte{k}
 		s.afterMutation("Insert")
 		return
 	}
@@ -1397,6 +1436,11 @@ func (s *seq) insert() {
 		sz = "many"
 	}
 	s.c.Distinct(fmt.Sprintf("d%d/tree.BulkInsert/n=%s/explicit-ts=%v/repeated=%v/ok", s.depth, sz, explicit, repeated))
+	s.lastKeys = s.lastKeys[:0]
+	for _, e := range bulk {
+		s.lastKeys = append(s.lastKeys, e.K)
+	}
+	s.r.Shuffle(len(s.lastKeys), func(i, j int) { s.lastKeys[i], s.lastKeys[j] = s.lastKeys[j], s.lastKeys[i] })
 	s.afterMutation("BulkInsert")
 }
 
@@ -1844,6 +1888,11 @@ func (s *seq) run(nops int) {
 		if op < nops/8 && x >= 40 && x < 80 {
 			x = 0
 		}
+		if s.cf.Small {
+			// dense in flush / snapshot / IncreaseTs / update of a present key / snapshot re-query
+			// (values are representatives of the ranges of the switch below)
+			x = pick(s.r, 0, 0, 0, 0, 0, 0, 30, 30, 30, 30, 81, 81, 81, 81, 46, 46, 46, 46, 54, 59, 59, 59, 36, 72, 75, 78, 88, 90, 93, 34, 95)
+		}
 		switch {
 		case x < 30:
 			s.insert()
@@ -1919,10 +1968,47 @@ func (s *seq) run(nops int) {
 
 // ---------------------------------------------------------------- entry point
 
+func init() { fw.RegisterIsolated("c10-seq", runSequence) }
+
+type seqCase struct {
+	ID, Ops int
+}
+
+// runSequence runs one sequence inside a child process (a fatal runtime error
+// of immudb - stack overflow, concurrent map writes - is then attributed to the
+// sequence by the parent as "crash/<func>/<kind>" instead of ending the run).
+func runSequence(c *fw.Ctx, data []byte) {
+	var sc seqCase
+	if err := json.Unmarshal(data, &sc); err != nil {
+		c.Inconclusive("c10-seq: bad case: " + err.Error())
+		return
+	}
+	s := &seq{c: c, id: sc.ID, r: c.Rand(fmt.Sprintf("c10/seq/%d", sc.ID)), dir: filepath.Join(c.Dir("seq"), "t"), conc: c.Thorough()}
+	t0 := time.Now()
+	panicked, sig, text := fw.Guard(func() { s.run(sc.Ops) })
+	if os.Getenv("VERIF_C10_TIMING") != "" { // diagnostics only, never part of a verdict
+		fmt.Fprintf(os.Stderr, "seq %d: %.1fs depth=%d %+v\n", sc.ID, time.Since(t0).Seconds(), s.maxDepth, s.cf)
+	}
+	if panicked {
+		if strings.Contains(text, "c10 generator") || !strings.Contains(text, "codenotary/immudb") {
+			c.Inconclusive(fmt.Sprintf("sequence %d: monitor fault: %s", sc.ID, text))
+		} else {
+			s.violation(panicSig(sig, text), text)
+		}
+	}
+	profile := "regular"
+	if s.cf.Small {
+		profile = "small-tree"
+	}
+	c.Set("sequences_by_max_depth", map[string]any{fmt.Sprintf("depth_%02d", s.maxDepth): 1})
+	c.Set("sequences_by_profile", map[string]any{profile: 1})
+}
+
 func Run(c *fw.Ctx) {
-	c.Rule = "PRNG sequences of BulkInsert/Insert/IncreaseTs/FlushWith/Sync/Compact/Close+reopen on embedded/tbtree with tiny nodes, caches and files; " +
+	c.Rule = "PRNG sequences of BulkInsert/Insert/IncreaseTs/FlushWith/Sync/Compact/Close+reopen on embedded/tbtree with tiny nodes, caches and files " +
+		"(a quarter of them on trees small enough to stay a single leaf); " +
 		"every Get/GetBetween/History/GetWithPrefix/Reader/HistoryReader answer of the tree equals kvmodel's current state and every answer of a snapshot equals " +
-		"the state frozen at snapshot.Ts() (re-sampled after every later mutation); after reopen the tree equals the model, after Compact+reopen the model at the reported ts. " +
+		"the state frozen at snapshot.Ts() (re-sampled after every later mutation, always including the keys just written); after reopen the tree equals the model, after Compact+reopen the model at the reported ts. " +
 		"distinct = tree depth x operation x argument/reader-spec shape x outcome class, as observed"
 	c.Assume("kvmodel (multi-version ordered map) is the specification; it passes its own self-check")
 	c.Assume("inputs respect BulkInsert's documented precondition: per key, timestamps do not decrease inside one bulk (a failed insertion rolls the tree back to its last flushed root by design)")
@@ -1931,12 +2017,6 @@ func Run(c *fw.Ctx) {
 	if err := kvmodel.SelfCheck(); err != nil {
 		c.Inconclusive(err.Error())
 		return
-	}
-	if pf := os.Getenv("VERIF_C10_PROF"); pf != "" { // diagnostics
-		if f, err := os.Create(pf); err == nil {
-			pprof.StartCPUProfile(f)
-			defer pprof.StopCPUProfile()
-		}
 	}
 	nseq := c.N(40, 300)
 	nops := c.N(400, 1500)
@@ -1949,116 +2029,17 @@ func Run(c *fw.Ctx) {
 	if v, err := strconv.Atoi(os.Getenv("VERIF_C10_MAXSEQ")); err == nil && v > 0 && v < nseq {
 		nseq = v
 	}
-	workers := runtime.GOMAXPROCS(0)
-	if workers > 16 {
-		workers = 16
-	}
-	jobs := make(chan int)
-	var wg sync.WaitGroup
-	var maxDepth sync.Map
-	var active sync.Map // sequence id -> *seq, for the watchdog
-	for w := 0; w < workers; w++ {
-		base := c.Dir(fmt.Sprintf("w%d", w))
-		wg.Add(1)
-		go func() {
-			defer wg.Done()
-			for i := range jobs {
-				s := &seq{c: c, id: i, r: c.Rand(fmt.Sprintf("c10/seq/%d", i)), dir: filepath.Join(base, "t"), conc: c.Thorough()}
-				t0 := time.Now()
-				active.Store(i, s)
-				panicked, sig, text := fw.Guard(func() { s.run(nops) })
-				active.Delete(i)
-				if os.Getenv("VERIF_C10_TIMING") != "" { // diagnostics only, never part of a verdict
-					fmt.Fprintf(os.Stderr, "seq %d: %.1fs depth=%d %+v\n", i, time.Since(t0).Seconds(), s.maxDepth, s.cf)
-				}
-				if panicked {
-					if strings.Contains(text, "c10 generator") || !strings.Contains(text, "codenotary/immudb") {
-						c.Inconclusive(fmt.Sprintf("sequence %d: monitor fault: %s", i, text))
-					} else {
-						s.violation(panicSig(sig, text), text)
-					}
-				}
-				maxDepth.Store(i, s.maxDepth)
-				os.RemoveAll(s.dir)
-			}
-		}()
-	}
-	// Watchdog: a sequence whose oracle has not taken a step for a very long time
-	// (default 15 min; single steps take milliseconds) is stuck inside an immudb
-	// call. That alone is inconclusive: the run is ended and says so.
-	limit := 15 * time.Minute
-	if v, err := strconv.Atoi(os.Getenv("VERIF_C10_WATCHDOG_S")); err == nil && v > 0 {
-		limit = time.Duration(v) * time.Second
-	}
-	finished := make(chan struct{})
-	stuck := make(chan string, 1)
-	go func() {
-		type mark struct {
-			n  int64
-			at time.Time
+	var cases [][]byte
+	for i := 0; i < nseq; i++ {
+		if only >= 0 && i != only {
+			continue
 		}
-		last := map[int]mark{}
-		tick := time.NewTicker(2 * time.Second)
-		defer tick.Stop()
-		for {
-			select {
-			case <-finished:
-				return
-			case now := <-tick.C:
-				found := ""
-				active.Range(func(k, v any) bool {
-					id, sq := k.(int), v.(*seq)
-					n := sq.progress.Load()
-					if m, ok := last[id]; !ok || m.n != n {
-						last[id] = mark{n, now}
-					} else if now.Sub(m.at) > limit {
-						sq.logMu.Lock()
-						tail := sq.log
-						if len(tail) > 3 {
-							tail = tail[len(tail)-3:]
-						}
-						found = fmt.Sprintf("sequence %d (%+v) made no step for %s; last operations: %s", id, sq.cf, limit, strings.Join(tail, " | "))
-						sq.logMu.Unlock()
-						return false
-					}
-					return true
-				})
-				if found != "" {
-					stuck <- found
-					return
-				}
-			}
-		}
-	}()
-	go func() {
-		for i := 0; i < nseq; i++ {
-			if only >= 0 && i != only {
-				continue
-			}
-			jobs <- i
-		}
-		close(jobs)
-		wg.Wait()
-		close(finished)
-	}()
-	select {
-	case <-finished:
-	case why := <-stuck:
-		c.Inconclusive("watchdog: " + why)
-		c.Set("ended_by_watchdog", true)
+		b, _ := json.Marshal(seqCase{ID: i, Ops: nops})
+		cases = append(cases, b)
 	}
-	deepest, hist := 0, map[int]int{}
-	maxDepth.Range(func(_, v any) bool {
-		d := v.(int)
-		hist[d]++
-		if d > deepest {
-			deepest = d
-		}
-		return true
-	})
-	c.Set("sequences", nseq)
+	// one child per shard of consecutive sequences; a sequence takes seconds (quick) to a few
+	// minutes (thorough, loaded machine): the per-case watchdog is far above that and its firing is inconclusive
+	c.RunIsolated("c10-seq", cases, fw.CasesOpts{Workers: c.N(20, 16), CaseTimout: 20 * time.Minute})
+	c.Set("sequences", len(cases))
 	c.Set("ops_per_sequence", nops)
-	c.Set("max_tree_depth", deepest)
-	c.Set("sequences_by_max_depth", fmt.Sprint(hist))
-	c.Sample(map[string]any{"what": "deepest tree observed (immudb_btree_depth gauge)", "depth": deepest})
 }
